@@ -1,4 +1,12 @@
-"""C08 — !notnew (and command-line overrides) can change but never create paths."""
+"""C08 — !notnew (and command-line overrides) can change but never create paths.
+
+Input families: (A) a plain base and an overriding document rooted !notnew; (N) a plain base - or nothing - and a document with
+!notnew / !new on any container, in particular inside whole sections the base does not have (the tagged node sits below the root
+of a subtree that is created in one piece, or in the first and only document); (B) command-line overrides through
+Config.build_from_cmdline; (T) bare option strings through Config.process_cmdline.  Oracle for A and N (written_paths): a path may
+be created iff the nearest tagged node strictly above it in the document says !new, or there is none; after a successful build
+every path that did not exist before is exactly such a written path, a failure is a MergeError, and a document that writes only
+existing or creatable paths builds."""
 import copy
 from props.mergefam import *
 from props.c04 import plain_of, val_to_py, get_at, gen_plain_value, set_at
@@ -11,21 +19,17 @@ def paths_of_py(o, pre=()):
         for i, v in enumerate(o): out += paths_of_py(v, pre + (i,))
     return out
 
-def written_paths(raw, pre=(), under_new=False):
-    """(path, allowed_new) for every node of the overriding document below its root"""
+def written_paths(raw, pre=(), inherited=True):
+    """(path, may_be_created) for every node of a document below its root. Whether a node may be created is decided by
+    the nearest tagged node strictly above it: !new yes, !notnew no, none at all (not even the root) yes; a node's own
+    tag speaks for its children only."""
+    new = (raw.get('kw') or {}).get('new')
+    eff = inherited if new is None else new
+    children = [(sc_py(k), c) for k, c in raw['m']] if 'm' in raw else list(enumerate(raw['q'])) if 'q' in raw else []
     out = []
-    kw = raw.get('kw') or {}
-    un = under_new
-    if 'm' in raw:
-        for k, c in raw['m']:
-            p = pre + (sc_py(k),)
-            out.append((p, un or kw.get('new') is True))
-            out += written_paths(c, p, (un or kw.get('new') is True) and (c.get('kw') or {}).get('new') is not False)
-    elif 'q' in raw:
-        for i, c in enumerate(raw['q']):
-            p = pre + (i,)
-            out.append((p, un or kw.get('new') is True))
-            out += written_paths(c, p, un or kw.get('new') is True)
+    for k, c in children:
+        out.append((pre + (k,), eff))
+        out += written_paths(c, pre + (k,), eff)
     return out
 
 def norm_path(base, path):
@@ -217,11 +221,73 @@ def gen_cmdline_strings(rng, n):
             opts.append(rng.choice(_EDGE)); wf.append(False); paths.append(None)
     return opts, wf, paths
 
+# ------------------------------------------------------------------------------------------------
+# (N) arbitrary !notnew / !new placement: sections the base does not have, tags at any depth
+# ------------------------------------------------------------------------------------------------
+_NEW_KEYS = ['sect', 'fresh', 'extra', 'nw', 'opt']
+
+def gen_new_subtree(rng, depth):
+    """plain content for a path the base does not have: scalars, mappings and lists, `depth` container levels at most"""
+    r = rng.random()
+    if depth <= 0 or r < 0.3:
+        return S(rng.choice([1, 2, 7, 'p', 'q', True, None, 1.5]))
+    if r < 0.45:
+        return Q([gen_new_subtree(rng, depth - 1) for _ in range(rng.choice([0, 1, 1, 2]))])
+    return M([(k, gen_new_subtree(rng, depth - 1)) for k in rng.sample(_NEW_KEYS, rng.choice([0, 1, 1, 2]))])
+
+def place_flags(rng, raw, p_notnew, p_new, root=True):
+    """tag the containers of `raw` (in place) with !notnew / !new at random, the root included"""
+    if 's' in raw:
+        return raw
+    r = rng.random()
+    pn, pw = (max(p_notnew, 0.3), max(p_new, 0.1)) if root else (p_notnew, p_new)
+    if r < pn + pw and not raw.get('kw'):
+        raw['kw'] = {'new': r >= pn}; raw['t'] = {'k': 'plain'}
+    for c in (raw['q'] if 'q' in raw else [c for _k, c in raw['m']]):
+        place_flags(rng, c, p_notnew, p_new, False)
+    return raw
+
+def gen_placement_override(rng, bp, ps):
+    """an overriding document for the plain data `bp` (None: nothing built so far; ps: its non-root paths) that rewrites
+    existing paths, mistypes keys and - mostly - adds whole new sections (nested mappings / lists under keys the base does
+    not have, below the root or below an existing path), with !notnew / !new on any of its containers"""
+    items = {}
+    for _i in range(rng.choice([1, 1, 2, 3])):
+        p = list(rng.choice(ps)) if ps and rng.random() < 0.6 else []
+        r = rng.random()
+        leaf = gen_plain_value(rng, 1)
+        if not p or r < 0.65:                 # a new section: one to three new keys, then new content
+            p = p + rng.sample(_NEW_KEYS, rng.choice([1, 2, 2, 3]))
+            leaf = gen_new_subtree(rng, rng.choice([0, 1, 2]))
+        elif r < 0.8:                         # mistype a component
+            j = rng.randrange(len(p))
+            p = p[:j] + [rng.choice(['typo', 'zz', 9, -7])]
+        cur, ok = items, True
+        for k in p[:-1]:
+            cur = cur.setdefault(k, {})
+            if '__leaf__' in cur:
+                ok = False; break
+        if ok and p[-1] not in cur:
+            cur[p[-1]] = {'__leaf__': leaf}
+    def build(d):
+        return M([(k, v['__leaf__'] if '__leaf__' in v else build(v)) for k, v in d.items()])
+    if rng.random() < 0.5:                    # exactly one !notnew, anywhere
+        o = build(items)
+        cs = [n for _p, n in G.paths_of(o) if 's' not in n]
+        n = rng.choice(cs)
+        n['kw'] = {'new': False}; n['t'] = {'k': 'plain'}
+        return o
+    return place_flags(rng, build(items), 0.2, 0.1)
+
 class C08(MergeFamProp):
     ID = 'C08'
     VOCAB = G.Vocab(notnew=True, new=True)
     RULE = ('a random plain base document followed by (A) an overriding document rooted !notnew that rewrites existing paths, mistypes keys '
             'at random depths, addresses lists by existing / out-of-range / negative indices and re-allows creation below nested !new nodes, '
+            'or (N) an overriding document - or a first and only document, checked against the empty config - that rewrites existing paths, '
+            'mistypes keys and mostly adds whole new sections (nested mappings / lists under keys the base does not have, below the root or '
+            'below an existing path) with !notnew / !new on any of its containers (half of them: exactly one !notnew anywhere, else each '
+            'container tagged at random, root included), so that tagged nodes sit below the root of a subtree created in one piece, '
             'or (B) command-line overrides a.b[i].c=value (existing and mistyped paths, scalar and list values; spelled with random blanks '
             "around '.', '=', inside brackets, signs / leading zeros / underscores in indices, values containing '=' and '.') through "
             'Config.build_from_cmdline, or (T) bare option strings (well-formed overrides in messy spellings, broken subscripts, '
@@ -239,6 +305,13 @@ class C08(MergeFamProp):
             D('A', base, M({'a': M({'e': S('y')})}, kw={'new': False})),
             D('A', base, M({'a': M({'typo': S('y')})}, kw={'new': False})),
             D('A', base, M({'a': M({'n': M({'deep': S(1)}, kw={'new': True})})}, kw={'new': False})),
+            # (N) tags below the root of a created subtree; the first two must fail naming sect.fresh.extra / evaluation.sched.warmup
+            D('N', M({'sect': M({'fresh': M({'extra': M({})}, kw={'new': False})})})),
+            D('N', M({'train': M({'lr': S(1)})}), M({'evaluation': M({'sched': M({'warmup': S(5)}, kw={'new': False})})})),
+            D('N', M({'train': M({'lr': S(1)})}), M({'evaluation': M({'sched': M({}, kw={'new': False})}), 'train': M({'lr': S(2)}, kw={'new': False})})),
+            D('N', M({'train': M({'lr': S(1)})}), M({'nw': M({'s': M({'w': M({'v': S(1)})}, kw={'new': True})}, kw={'new': False})})),
+            D('N', M({'train': M({'lr': S(1)})}), M({'train': M({'opt': Q([M({'v': S(1)})])}, kw={'new': True})}, kw={'new': False})),
+            D('N', M({'nw': Q([M({'z': S(1)}, kw={'new': False})])})), D('N', M({}, kw={'new': False})), D('N', M({'a': S(1)}, kw={'new': False})),
             D('B', base, cmd=['a.b[0].c=7']), D('B', base, cmd=['a.b[0].x=7']), D('B', base, cmd=['a.b[-1]=[1, 2]', 'f=null']),
             D('B', base, cmd=['a.b[2]=1']),
             D('B', base, cmd=['a.b[0].c=7', 'a.e=k=v'], spell=[' a . b [ +0 ] . c = 7 ', 'a.e = k=v']),
@@ -305,6 +378,14 @@ class C08(MergeFamProp):
                     spell.append(spell_override(rng, p, v) if rng.random() < 0.7 else cmds[-1])
                 if cmds:
                     out.append({'docs': [{'raw': base}], 'style': ['flow', 0, 0], 'kind': 'B', 'cmd': cmds, 'spell': spell})
+        for _ in range(n // 4):       # (N), drawn after the others so that they are the same for a seed as before
+            if rng.random() < 0.25:   # the document is the first and only one: everything it contains is new
+                out.append({'docs': [{'raw': gen_placement_override(rng, None, [])}], 'style': ['flow', 0, 0], 'kind': 'N'})
+                continue
+            base = M([(k, gen_plain_value(rng, 3)) for k in rng.sample(['a', 'b', 'c', 'k', 'x'], rng.choice([1, 2, 3]))])
+            bp = plain_of(base)
+            o = gen_placement_override(rng, bp, [p for p in paths_of_py(bp) if p])
+            out.append({'docs': [{'raw': base}, {'raw': o}], 'style': ['flow', 0, 0], 'kind': 'N'})
         return out
 
     def cmd_docs(self, case):
@@ -380,11 +461,15 @@ class C08(MergeFamProp):
 
     def oracle(self, case, io, ans):
         kind = case.get('kind')
-        if kind not in ('A', 'B'):
+        if kind not in ('A', 'B', 'N'):
             return None
         cfg = io['cfg']
-        base = plain_of(case['docs'][0]['raw'])
-        bpaths = set(paths_of_py(base))
+        docs = case['docs']
+        if not 1 <= len(docs) <= 2:
+            return None
+        # what was built before the last document: the plain base, or nothing at all (only the root path exists)
+        base = plain_of(docs[0]['raw']) if len(docs) == 2 or kind == 'B' else None
+        bpaths = set(paths_of_py(base)) if base is not None else {()}
         if kind == 'B':
             d = first_diff({k: v for k, v in cfg.items() if k != 'log'}, {k: v for k, v in io['cfg_docs'].items() if k != 'log'})
             if d:
@@ -415,44 +500,43 @@ class C08(MergeFamProp):
                 if cfg.get('err') != 'merge':
                     return f'a mistyped override path must be a MergeError, got {cfg.get("err")}'
             return None
-        # kind A
-        if len(case['docs']) != 2 or (case['docs'][1]['raw'].get('kw') or {}).get('new') is not False:
-            return None
+        # kinds A, N: the last document carries the tags; a single document is checked against an empty config
+        over = docs[-1]['raw']
+        wp = written_paths(over)
+        missing = [p for p, an in wp if not an and norm_path(base, p) is None]     # written, not there, may not be created
         if 'ok' in cfg:
             got = val_to_py(strip_ids(cfg['ok']))
             gpaths = set(paths_of_py(got))
-            wp = written_paths(case['docs'][1]['raw'])
-            allowed = set()
-            for p, an in wp:
-                if an:
-                    np_ = norm_path(got, p)
-                    if np_: allowed.add(np_)
+            allowed = {norm_path(got, p) for p, an in wp if an}
             for p in sorted(gpaths - bpaths, key=str):
-                if not any(p[:len(a)] == a for a in allowed):
-                    return f'!notnew merge succeeded but created the path {list(p)} that did not exist before'
+                if p not in allowed:
+                    return (f'the merge succeeded but created the path {list(p)}, which did not exist before and is written below a !notnew node '
+                            f'(not re-allowed by a !new in between)' if any(norm_path(got, q) == p for q, _ in wp) else
+                            f'the merge succeeded but created the path {list(p)} that did not exist before and that the document does not write')
         else:
             if cfg.get('err') != 'merge':
-                return f'!notnew merge must fail with a MergeError, got {cfg.get("err")}'
+                return f'a merge that creates paths below !notnew must fail with a MergeError, and plain documents fail in no other way; got {cfg.get("err")}'
             named = cfg.get('notnew')
-            if named is not None:
+            if named is not None and cfg.get('err') == 'merge' and len(docs) == 2 and (over.get('kw') or {}).get('new') is False:
                 try:
                     p = [sc_py(k) for k in NodePath.get_list_path(named)]
                 except Exception:
                     return f'MergeError names an unparsable path {named!r}'
                 from props.c15 import C15 as _C15
-                if _C15.has_alias_keys(case['docs'][1:]):
+                if _C15.has_alias_keys(docs[1:]):
                     return None     # two keys of one mapping address the same list position: the earlier one may have replaced what the later one names
-                if norm_path(base, p) is not None and not any(list(q[:len(p)]) == p and a for q, a in written_paths(case['docs'][1]['raw'])):
+                if norm_path(base, p) is not None and not any(list(q[:len(p)]) == p and a for q, a in wp):
                     # the named path exists in the base: only acceptable when a list is replaced by a longer one (element paths)
                     if not isinstance(get_at(base, list(norm_path(base, p))), list):
                         return f'MergeError names {named!r}, which exists in the base config'
-            # completeness: if every written path exists the merge must succeed
-            wp = written_paths(case['docs'][1]['raw'])
-            if all(norm_path(base, p) is not None for p, an in wp) and not any('q' in n for _, n in G.paths_of(case['docs'][1]['raw'])):
-                compatible = True
-                for p, an in wp:
-                    pass
-                return f'every path written by the !notnew document exists in the base, yet the merge failed: {json.dumps({k: v for k, v in cfg.items() if k != "log"})[:160]}'
+            # completeness: if every written path exists or may be created the merge must succeed
+            # (a mapping merged into a list of the base addresses positions: keys other than existing indices are errors of their own)
+            def in_base_list(p):
+                q = norm_path(base, p[:-1])
+                return q is not None and isinstance(get_at(base, list(q)), list) and norm_path(base, p) is None
+            if not missing and not any('q' in n for _, n in G.paths_of(over)) and not any(in_base_list(p) for p, _ in wp):
+                return ('every path written by the document exists in the base or may be created, yet the merge failed: '
+                        f'{json.dumps({k: v for k, v in cfg.items() if k != "log"})[:160]}')
         return None
 
     def render(self, case):
@@ -463,6 +547,16 @@ class C08(MergeFamProp):
 
     def features(self, case, io):
         f = super().features(case, io) + ['kind:' + str(case.get('kind'))]
+        if case.get('kind') in ('A', 'N') and case['docs']:
+            over = case['docs'][-1]['raw']
+            base = plain_of(case['docs'][0]['raw']) if len(case['docs']) == 2 else None
+            f.append('root:' + {None: 'untagged', True: '!new', False: '!notnew'}[(over.get('kw') or {}).get('new')])
+            if len(case['docs']) == 1: f.append('first-and-only-document')
+            for p, n in G.paths_of(over):
+                if p and (n.get('kw') or {}).get('new') is False and ('m' in n or 'q' in n):
+                    new_above = [i for i in range(1, len(p) + 1) if norm_path(base, p[:i]) is None]
+                    f.append('!notnew:on-a-new-path' if new_above and new_above[0] == len(p) else
+                             '!notnew:inside-a-new-section' if new_above else '!notnew:on-an-existing-path')
         for o in (io.get('cmdline') or []) if isinstance(io, dict) else []:
             f.append('option:' + o['type'] + ('/' + o['error'] if 'error' in o else ''))
         if case.get('spell') and case['spell'] != case['cmd']:
